@@ -272,3 +272,11 @@ def signatureHeaderValue (v : Ver) (sig validityUrl certUrl certSha256 : Bytes) 
     (kExpires, some (.int expires))] }
 
 end WebPkg.Sxg
+
+namespace WebPkg.Sxg
+/-- `ComputeHeaderIntegrity()`: "sha256-" ++ padded std base64 of SHA-256 over the signed header bytes -/
+def headerIntegrity (H : Bytes → Bytes) (e : Exchange) : Option Bytes :=
+  match encodeExchangeHeaders e with
+  | .ok hdr => some ([115, 104, 97, 50, 53, 54, 45] ++ Base64.encode false true (H hdr))   -- "sha256-"
+  | .error _ => none
+end WebPkg.Sxg
